@@ -5,6 +5,8 @@ import Capella.Gen.Exs
 import Capella.Lemmas.XmlNsUpdate
 import Capella.Gen.Ns
 import Capella.Lemmas.XmlBytes
+import Capella.Lemmas.XmlWide
+import Capella.Lemmas.XmlLayoutTag
 
 /-!
 # C01 — unmodified load-then-save reproduces Capella's files byte for byte
@@ -227,6 +229,178 @@ theorem nonascii_tag_breaks_early :
       = "<eeeeeeee a=\"1\" b=\"2\"/>\n".toList := by
   decide
 
+
+/-! ## The widened domain (round 5): what the writer reads, what it drops, what it refuses
+
+`Model/XmlWide.lean`: `viewDoc false` erases white-space-only / `""` tails and white-space-only / `""` text in
+front of children; `viewDoc true` erases in addition the tail of every childless element below the root.
+`wfDocW d = wfDocE (viewDoc false d)`, `wfDocV d = wfDocE (viewDoc true d)`, `readBack l d = canonDoc (dropDoc
+(viewDoc l d))`. -/
+
+/-- **The writer reads only the view** — for *every* tree (no well-formedness hypothesis), every line length,
+with or without siblings, root or sub-element: a tree and its view are written byte for byte alike.  I.e.
+`(x.tail or "").strip()` false → the tail is not written; blank text in front of children is not written; the
+tail of a childless element (other than the one handed to `serialize`) is never even looked at. -/
+theorem writer_reads_only_the_view (lossy : Bool) (ll : Nat) (sib : Bool) (pns : List (Str × Str))
+    (isRoot : Bool) (d : Doc) :
+    serialize ll sib pns isRoot (viewDoc lossy d) = serialize ll sib pns isRoot d :=
+  serialize_view lossy ll sib pns isRoot d
+
+/-- **`parse_ser` on the widened domain**: a document that is Capella-shaped *once the unread white space is taken
+away* — blank tails anywhere (elements, sibling comments), blank or `""` text in front of children, `""` text on
+childless elements, white-space-only text on childless elements — is read back, from the complete file and for
+**every** line length, as its view in file order with `""` read as "no text". -/
+theorem parse_ser_wide (ll : Nat) (d : Doc) (hwf : wfDocW d = true) :
+    parse (declare "utf-8".toList ++ serialize ll true [] true d) = some (readBack false d) :=
+  parse_declared_view false ll d hwf
+
+/-- the same without the declaration (`exs.serialize` alone), when the view is Capella-shaped proper -/
+theorem parse_ser_wide_nodecl (ll : Nat) (d : Doc) (hwf : wfDoc (viewDoc false d) = true) :
+    parse (serialize ll true [] true d) = some (canonDoc (viewDoc false d)) :=
+  parse_ser_view false ll d hwf
+
+/-- **Exactly when the tree itself comes back** on the widened domain: iff it carries nothing the writer does not
+read and is in file order.  (`wfDoc d ∧ canonDoc d = d` is the special case `parse_ser_canonical`.) -/
+theorem roundtrip_exact_iff (ll : Nat) (d : Doc) (hwf : wfDocW d = true) :
+    parse (declare "utf-8".toList ++ serialize ll true [] true d) = some d ↔ readBack false d = d := by
+  rw [parse_ser_wide ll d hwf]
+  exact ⟨fun h => Option.some.inj h, fun h => by rw [h]⟩
+
+/-- **Tails of childless elements are dropped, and that is all that is dropped**: if the tree is Capella-shaped
+apart from such tails (`wfDocV`), the file reads back as the tree without them … -/
+theorem leaf_tails_lost (ll : Nat) (d : Doc) (hwf : wfDocV d = true) :
+    parse (declare "utf-8".toList ++ serialize ll true [] true d) = some (readBack true d) :=
+  parse_declared_view true ll d hwf
+
+/-- … and two trees that differ only there are written alike (no hypothesis). -/
+theorem leaf_tails_invisible (ll : Nat) (sib : Bool) (pns : List (Str × Str)) (isRoot : Bool) (d₁ d₂ : Doc)
+    (h : viewDoc true d₁ = viewDoc true d₂) :
+    serialize ll sib pns isRoot d₁ = serialize ll sib pns isRoot d₂ := by
+  rw [← serialize_view true ll sib pns isRoot d₁, h, serialize_view]
+
+/-- **Write–parse–write is a fixpoint on the widened domain**, for every line length, provided no childless element
+outside `ALWAYS_EXPANDED_TAGS` has the text `""` (`collapsesE`; see `ser_idempotent_anytree_fails`).  Holds for the
+lossy view as well: losing a leaf tail does not move the bytes. -/
+theorem ser_idempotent_wide (lossy : Bool) (ll : Nat) (d : Doc) (hwf : wfDocE (viewDoc lossy d) = true)
+    (hc : collapsesE d.root = false) :
+    (parse (declare "utf-8".toList ++ serialize ll true [] true d)).map (serialize ll true [] true) =
+      some (serialize ll true [] true d) := by
+  rw [parse_declared_view lossy ll d hwf, Option.map_some, serialize_readBack lossy ll d hwf hc]
+
+/-- the statement without the proviso … -/
+def ser_idempotent_anytree : Prop :=
+  ∀ (ll : Nat) (d : Doc), wfDocW d = true →
+    (parse (declare "utf-8".toList ++ serialize ll true [] true d)).map (serialize ll true [] true) =
+      some (serialize ll true [] true d)
+
+/-- the witness (replayed on the implementation by the stream `wide:empty-text-collapses`): `e.text = ""` on a
+childless `<a>` -/
+def collapseWitness : Doc := ⟨[], .mk "a".toList [] [] (some []) none [], []⟩
+
+/-- … **fails**: `<a></a>` is read as an element without text, which is written `<a/>`. -/
+theorem ser_idempotent_anytree_fails : ¬ ser_idempotent_anytree := by
+  intro h
+  have := h 80 collapseWitness (by decide)
+  revert this
+  decide
+
+/-- the proviso is exactly the missing hypothesis -/
+theorem ser_idempotent_anytree_partial (ll : Nat) (d : Doc) (hwf : wfDocW d = true)
+    (hc : collapsesE d.root = false) :
+    (parse (declare "utf-8".toList ++ serialize ll true [] true d)).map (serialize ll true [] true) =
+      some (serialize ll true [] true d) :=
+  ser_idempotent_wide false ll d hwf hc
+
+/-! ### outside the widened domain: what happens exactly (witnesses; each is a correspondence case) -/
+
+/-- a non-blank tail on an element **with** children is written after *each* of its children (the loop writes
+`element.tail`), never after the element itself -/
+theorem parent_tail_written_after_each_child :
+    let d : Doc := ⟨[], .mk "r".toList [] [] none none
+      [.mk "a".toList [] [] none (some "T".toList) [.mk "b".toList [] [] none none [], .mk "c".toList [] [] none none []]], []⟩
+    wfDocV d = false ∧ serialize 80 true [] true d = "<r>\n  <a>\n    <b/>T<c/>T</a>\n</r>\n".toList := by
+  decide
+
+/-- a non-blank tail on the root is written after the root: not a document any more -/
+theorem root_tail_unreadable :
+    let d : Doc := ⟨[], .mk "a".toList [] [] none (some "T".toList) [], []⟩
+    wfDocV d = false ∧ serialize 80 true [] true d = "<a/>T\n".toList ∧
+      parse (serialize 80 true [] true d) = none := by
+  decide
+
+/-- a non-blank tail on a sibling comment likewise -/
+theorem comment_tail_unreadable :
+    let d : Doc := ⟨[⟨"c".toList, some "x".toList⟩], .mk "r".toList [] [] none none [], []⟩
+    wfDocV d = false ∧ serialize 80 true [] true d = "\n<!--c-->x<r/>\n".toList ∧
+      parse (serialize 80 true [] true d) = none := by
+  decide
+
+/-- non-blank text in front of children is written; the line breaks the writer puts between the children then
+read back as tails (libxml2 keeps blank text in an element whose first child is text) — the tree differs, the
+bytes of a second write do not -/
+theorem text_before_children_reads_tails :
+    let d : Doc := ⟨[], .mk "r".toList [] [] (some "h".toList) none [.mk "b".toList [] [] none none []], []⟩
+    wfDocV d = false ∧ serialize 80 true [] true d = "<r>h<b/>\n</r>\n".toList ∧
+      (parse (serialize 80 true [] true d)).map (fun x => x.root.kids.map Elem.tail) = some [some "\n".toList] ∧
+      (parse (serialize 80 true [] true d)).map (serialize 80 true [] true) = some (serialize 80 true [] true d) := by
+  decide
+
+/-! ### comments and processing instructions inside elements: refused -/
+
+/-- **A tree with a comment or PI inside an element is never written**: `serialize` raises (the `TypeError` of
+`P_NAME.search(<function>)`, or whatever an element earlier in document order raises) — for every tree, every
+position of the node, every line length. -/
+theorem inner_comment_never_written (ll : Nat) (sib : Bool) (pns : List (Str × Str)) (isRoot : Bool)
+    (pre post : List Comment) (n : Node) (h : n.hasCom = true) :
+    ∃ e, serializeN ll sib pns isRoot pre n post = .error e := by
+  unfold serializeN
+  have := Node.err_of_hasCom pns n h
+  cases he : Node.err pns n with
+  | some e => exact ⟨e, rfl⟩
+  | none => rw [he] at this; simp at this
+
+/-- on element-only trees `serializeN` is the writer of `Model/Xml.lean` with the errors of `elemErr` -/
+theorem serializeN_elements (ll : Nat) (sib : Bool) (pns : List (Str × Str)) (isRoot : Bool) (d : Doc) :
+    serializeN ll sib pns isRoot d.pre (Node.ofElem d.root) d.post =
+      match elemErr pns d.root with
+      | some e => .error (.writer e)
+      | none => .ok (serialize ll sib pns isRoot d) := by
+  unfold serializeN
+  rw [Node.err_ofElem, Node.toElem_ofElem]
+  cases elemErr pns d.root <;> rfl
+
+/-- the exception is the `TypeError`, unless an element before the comment has an undeclared namespace -/
+theorem inner_comment_typeerror :
+    errOf (serializeN 80 true [] true [] (.el "r".toList [] [] none none
+      [.el "k".toList [] [] none none [.com "in".toList none]]) []) = some .typeError ∧
+    errOf (serializeN 80 true [] true [] (.el "r".toList [] [] none none
+      [.el "{u}k".toList [] [] none none [], .com "in".toList none]) []) = some (.writer .value) := by
+  decide
+
+/-! ### the column of a whole start tag, for every tag name -/
+
+/-- **`wrap_column_exact` for the whole start tag `<tag a="v" …` of any element**: the counter after the attribute
+loop is the true column (code points) plus the number of continuation bytes of the tag
+(`len(tag.encode()) - len(tag)`) as long as the loop has not broken the line, and exactly the true column from
+the first break on (a break resets the counter to the attribute indent). -/
+theorem stag_column_exact (ll ai : Nat) (isRoot : Bool) (ws : List (Str × Str))
+    (hnl : ∀ w ∈ ws, '\n' ∉ w.1 ∧ '\n' ∉ w.2) (pos : Nat) (tagS : Str) (ht : '\n' ∉ tagS) :
+    (serAttrs ll ai isRoot ws (pos + 1 + utf8Len tagS) false).2 =
+      colAfter pos ('<' :: tagS ++ (serAttrs ll ai isRoot ws (pos + 1 + utf8Len tagS) false).1) +
+        (if '\n' ∈ (serAttrs ll ai isRoot ws (pos + 1 + utf8Len tagS) false).1 then 0
+         else utf8Len tagS - tagS.length) :=
+  stag_pos_formula ll ai isRoot ws hnl pos tagS ht
+
+/-- for the tags the corpus can contain (Ecore names: ASCII) the surplus is 0: the counter **is** the column of
+the whole start tag, attributes with any characters included -/
+theorem stag_column_exact_ascii (ll ai : Nat) (isRoot : Bool) (ws : List (Str × Str))
+    (hnl : ∀ w ∈ ws, '\n' ∉ w.1 ∧ '\n' ∉ w.2) (pos : Nat) (tagS : Str) (ht : '\n' ∉ tagS)
+    (ha : tagS.all isAscii = true) :
+    (serAttrs ll ai isRoot ws (pos + 1 + utf8Len tagS) false).2 =
+      colAfter pos ('<' :: tagS ++ (serAttrs ll ai isRoot ws (pos + 1 + utf8Len tagS) false).1) := by
+  rw [stag_column_exact ll ai isRoot ws hnl pos tagS ht, (utf8Len_eq_length_iff tagS).mpr ha]
+  simp
+
 /-! ## The boundary of `wfDoc` (each clause excluded for a reason; witnesses) -/
 
 /-- Mixed content is outside the domain: the writer tests the *parent's* tail inside the child
@@ -313,6 +487,30 @@ def nsSampleVps : List (Str × Str) := [("org.polarsys.capella.core.viewpoint".t
 example : wfDoc nsSample = true ∧ Doc.beq (canonDoc nsSample) nsSample = true := by decide +kernel
 example : (match newNsmap Capella.Gen.Ns.plugins nsSampleVps nsSample.root with
     | .ok n => dictEq nsSample.root.nsdecls n | .error _ => false) = true := by decide +kernel
+
+-- the widened domain: blank tails, blank text in front of children, a comment tail of white space, `""` on `bodies`
+def wideSample : Doc :=
+  ⟨[⟨"Capella_Version_6.0.0".toList, some "\n".toList⟩],
+   .mk "r".toList [] [("id".toList, "1".toList)] (some "\n  ".toList) (some "\n".toList)
+     [.mk "k".toList [] [] (some " ".toList) (some "\n  ".toList) [],
+      .mk "bodies".toList [] [] (some []) (some []) []], []⟩
+example : wfDoc wideSample = false ∧ wfDocW wideSample = true ∧ collapsesE wideSample.root = false := by decide
+example : Doc.beq (readBack false wideSample) wideSample = false := by decide
+example : (parse (declare "utf-8".toList ++ serialize 80 true [] true wideSample)).map (serialize 80 true [] true) =
+    some (serialize 80 true [] true wideSample) := ser_idempotent_wide false 80 wideSample (by decide) (by decide)
+-- a leaf tail: in `wfDocV`, not in `wfDocW`; lost on the way
+def leafTailSample : Doc :=
+  ⟨[], .mk "a".toList [] [] none none [.mk "b".toList [] [] none (some "T".toList) []], []⟩
+example : wfDocW leafTailSample = false ∧ wfDocV leafTailSample = true ∧ losesTailE true leafTailSample.root = true := by
+  decide
+example : (readBack true leafTailSample).root.kids.map Elem.tail = [none] := by decide
+example : collapsesE collapseWitness.root = true ∧ wfDocW collapseWitness = true := by decide
+example : (Node.el "r".toList [] [] none none [.com "c".toList none]).hasCom = true := by decide
+-- the start-tag formula on a non-ASCII tag: 8 continuation bytes ahead before the break, exact after it
+example : (serAttrs 20 4 true [("a".toList, "1".toList)] (0 + 1 + utf8Len "éééééééé".toList) false).2 = 23 ∧
+    colAfter 0 ('<' :: "éééééééé".toList ++ (serAttrs 20 4 true [("a".toList, "1".toList)] 17 false).1) = 15 := by decide
+example : (serAttrs 20 4 true [("a".toList, "1".toList), ("b".toList, "2".toList)] (0 + 1 + utf8Len "éééééééé".toList) false).2 = 9 := by
+  decide
 
 example : encodeUtf8 "aé€😀".toList = [97, 195, 169, 226, 130, 172, 240, 159, 152, 128] := by decide
 example : utf8Len "aé€😀".toList = 10 ∧ "aé€😀".toList.length = 4 := by decide
